@@ -7,19 +7,44 @@
 (* (pair, T) cell: a cell is one run; acc / tot count accepted / all        *)
 (* acceptance executions of the run and the last one must leave acc within  *)
 (* the logged 6-sigma bounds [lo, hi] of N * exp(-(f(S') - f(S)) / T).      *)
+(* The distributional clause of C12 ("mu random ones") is decided per       *)
+(* survival cell: a cell is one run of executions of RandomReplacement      *)
+(* (act.pc = "cell") on the same parents, offspring (unique tags) and mu;   *)
+(* cell.c counts, per tag, the executions the individual survived; when the *)
+(* announced number of executions act.lo is reached every count must        *)
+(* satisfy Operators!SurvivalOk (computed here, on integers).               *)
 EXTENDS Operators, TLC, Json, IOUtils
 
 Rec == ndJsonDeserialize(IOEnv.TRACE)
 
-VARIABLES l, acc, tot
+VARIABLES l, acc, tot, cell
 
-TraceInit == Init /\ l = 1 /\ acc = 0 /\ tot = 0
+NoCell == [mu |-> -1, par |-> <<>>, off |-> <<>>, n |-> 0, c |-> <<>>]
+
+TraceInit == Init /\ l = 1 /\ acc = 0 /\ tot = 0 /\ cell = NoCell
 
 Reset == /\ Rec[l].act.op = "reset"
          /\ stack' = <<>> /\ temp' = 0
          /\ act' = Rec[l].act
          /\ res' = R("ok")
-         /\ acc' = 0 /\ tot' = 0
+         /\ acc' = 0 /\ tot' = 0 /\ cell' = NoCell
+
+IsCell(a) == a.op = "random_repl" /\ a.pc = "cell"
+
+\* one more execution of the cell: same inputs as before, survivors counted by tag
+CellStep(a, after) ==
+    LET par  == Under(stack)
+        off  == Top(stack)
+        both == par \o off
+        tags == {Tag(both[i]) : i \in DOMAIN both}
+        kept == {Tag(x) : x \in Range(Top(after))}
+        old  == IF cell.n = 0 THEN [t \in tags |-> 0] ELSE cell.c
+    IN  /\ UniqueTags(both)
+        /\ cell.n > 0 => (cell.mu = a.n /\ cell.par = par /\ cell.off = off)
+        /\ cell.n < a.lo
+        /\ cell' = [mu |-> a.n, par |-> par, off |-> off, n |-> cell.n + 1,
+                    c |-> [t \in tags |-> old[t] + (IF t \in kept THEN 1 ELSE 0)]]
+        /\ cell'.n = a.lo => \A t \in tags : SurvivalOk(cell'.n, Len(both), a.n, cell'.c[t])
 
 Exec == LET rc == Rec[l]
             a  == rc.act
@@ -30,12 +55,13 @@ Exec == LET rc == Rec[l]
                     /\ acc' = acc + (IF SaAccepted(stack, stack') THEN 1 ELSE 0)
                     /\ a.last = 1 => (a.lo <= acc' /\ acc' <= a.hi)
                ELSE UNCHANGED <<acc, tot>>
+            /\ IF IsCell(a) THEN CellStep(a, rc.stack) ELSE UNCHANGED cell
 
 TraceNext == /\ l <= Len(Rec)
              /\ (Reset \/ Exec)
              /\ l' = l + 1
 
-TraceSpec == TraceInit /\ [][TraceNext]_<<vars, l, acc, tot>>
+TraceSpec == TraceInit /\ [][TraceNext]_<<vars, l, acc, tot, cell>>
 
 TraceDone == PrintT(<<"TRACE_RESULT", TLCGet("stats").diameter - 1, Len(Rec)>>)
 =============================================================================
